@@ -247,16 +247,29 @@ func GetExpectedHeaderSize(stateRootInHeader bool, numOfValidators int) int {
 		size = expectedHeaderSizeWithEmptyWitness + 1
 	} else {
 		m := smartcontract.GetDefaultHonestNodeCount(numOfValidators)
-		// expectedHeaderSizeWithEmptyWitness contains 2 bytes for zero-length (new(Header)).Script.Invocation/Verification
-		// InvocationScript:
-		// 64 is the size of the default signature length + 2 bytes length and opcode
-		// 2 = 1 push opcode + 1 length
-		// VerifcationScript:
-		// m = 1 bytes
-		// 33 =  1 push opcode + 1 length + 33 bytes for public key
-		// n = 1 bytes
-		// 5 for SYSCALL
-		size = expectedHeaderSizeWithEmptyWitness + (1+1+64)*m + 2 + numOfValidators*(1+1+33) + 2 + 5
+		// pushSize is the size of the instruction that pushes a small
+		// positive number: PUSH1..PUSH16, then PUSHINT8, then PUSHINT16.
+		pushSize := func(v int) int {
+			switch {
+			case v <= 16:
+				return 1
+			case v <= 127:
+				return 2
+			default:
+				return 3
+			}
+		}
+		// InvocationScript: m signatures, each is PUSHDATA1 + length + 64 bytes.
+		invLen := (1 + 1 + 64) * m
+		// VerificationScript: m, n public keys (PUSHDATA1 + length + 33 bytes each),
+		// n, SYSCALL with its 4-byte ID.
+		verLen := pushSize(m) + numOfValidators*(1+1+33) + pushSize(numOfValidators) + 5
+		// expectedHeaderSizeWithEmptyWitness contains 2 bytes for zero-length
+		// (new(Header)).Script.Invocation/Verification, the real length
+		// prefixes depend on the lengths.
+		size = expectedHeaderSizeWithEmptyWitness - 1 - 1 +
+			io.GetVarSize(invLen) + invLen +
+			io.GetVarSize(verLen) + verLen
 	}
 
 	if stateRootInHeader {
